@@ -398,7 +398,8 @@ def run(ctx):
                 ok = ok and g_ok and "minijinja::value::ops::MAX_REPEATED_STRING_LEN" in named
         ctx.ob("C01.P6.explicit-limit-present", tag + "repeated string length", ok,
                "str::repeat in ops::mul must be guarded by MAX_REPEATED_STRING_LEN", mul.loc)
-        add = prog.fn("minijinja::value::ops::add")
+        # read through a private helper the sequence branch may have been moved into (`concat_seqs(lhs, rhs)`)
+        add = prog.view("minijinja::value::ops::add", keep=("depth_for_values", "new_iterable", "coerce"), max_blocks=60)
         ok = "minijinja::value::merge_object::MergeSeq::MAX_DEPTH" in query.named_consts(add) and any(
             c.name.endswith("MergeSeq::depth_for_values") for c in add.calls())
         ctx.ob("C01.P6.explicit-limit-present", tag + "lazy concatenation depth", ok,
